@@ -45,11 +45,15 @@ class Loop(ModelLoop):
 
 
 class Cursor:
-    def __init__(self, rows):
+    def __init__(self, rows, rowcount=-1):
         self.rows = rows
+        self.rowcount = rowcount            # sqlite3: rows modified by INSERT/UPDATE/DELETE (summed by executemany), -1 otherwise
 
     def fetchall(self):
         return self.rows
+
+    def fetchone(self):
+        return self.rows[0] if self.rows else None
 
 
 class ModelTransaction:
@@ -57,34 +61,44 @@ class ModelTransaction:
         self.table = table
 
     def apply(self, sql, params):
+        """(rows returned, rows modified)"""
         t = self.table
         if sql == "select blob_hash from blob where status='finished'":
-            return [(h,) for h in sorted(t) if t[h] == 'finished']
+            return [(h,) for h in sorted(t) if t[h] == 'finished'], -1
         if sql == "update blob set status='pending' where blob_hash=?":
             if params[0] in t:
                 t[params[0]] = 'pending'
-            return []
+                return [], 1
+            return [], 0
         if sql == "insert or ignore into blob values (?, ?, ?, ?, ?, ?, ?, ?, ?)":
             if params[0] not in t:
                 t[params[0]] = params[4]
-            return []
+                return [], 1
+            return [], 0
         if sql == "update blob set status='finished' where blob.blob_hash=?":
             if params[0] in t:
                 t[params[0]] = 'finished'
-            return []
+                return [], 1
+            return [], 0
         if sql == "delete from blob where blob_hash=?;":
-            t.pop(params[0], None)
-            return []
+            if params[0] in t:
+                t.pop(params[0])
+                return [], 1
+            return [], 0
         from symvm.sv import Unsupported
         raise Unsupported('table model: unknown SQL statement %r' % (sql,))
 
     def execute(self, sql, params=()):
-        return Cursor(self.apply(sql, tuple(params)))
+        rows, count = self.apply(sql, tuple(params))
+        return Cursor(rows, count)
 
     def executemany(self, sql, seq):
+        total = 0
         for params in seq:
-            self.apply(sql, tuple(params))
-        return Cursor([])
+            count = self.apply(sql, tuple(params))[1]
+            if count > 0:
+                total += count
+        return Cursor([], total)
 
 
 class ModelDB:
